@@ -10,6 +10,7 @@ CONSTANTS
   B = 1  TXMax = 2
   Inline = FALSE  BatchTX = FALSE  Drops = TRUE
   ScrubTxLen = FALSE  ResetRawSA = TRUE  BothOnHandoff = FALSE
+  ClearHdr = TRUE  TruncRelease = TRUE
   ResetSlot = TRUE  Opts <- ONone
 SPECIFICATION Spec
 SYMMETRY SymClients
